@@ -64,9 +64,12 @@ impl IntoResponse for StatusCode {
 
 
 def build(ctx):
+    return P.HEADER + P.STD_SPECS + build_body(ctx) + ctx.helpers_here() + P.FOOTER
+
+
+def build_body(ctx):
     C = ctx
-    t = P.HEADER + P.STD_SPECS
-    t += P.peer_types(C)
+    t = P.peer_types(C)
     t += C.item(RESP, 'enum StatusCode', rewrites=[('X5', r'\s*=\s*\d+,', ',', None, True)])
     t += STANDINS
     t += C.item(TYPES, 'mod header', rewrites=[('X9c', '&str', "&'static str", None)])
@@ -128,9 +131,9 @@ def build(ctx):
     ensures
         r.head.extensions.peer is None, // @OBL Status::into_response::sends_no_identity [C01] turning a status into a reply attaches no identity: who sent a reply is decided by the receiving side from the connection
         forall|k: Seq<char>| #[trigger] r.head.headers.m@.contains_key(k) ==> k == header::STATUS_MESSAGE@ || self.headers.m@.contains_key(k), // @OBL Status::into_response::adds_only_the_message_header [C01] the reply carries the status's own headers plus at most the status-message header: in particular nothing derived from the recorded peer identity
-        r.head.status == self.status, // @OBL Status::into_response::status_kept [C01] the reply's status is the status's code
+        r.head.status == self.status, // @OBL Status::into_response::status_kept [C01,C17] the reply's status is the status's code
+        forall|k: Seq<char>| #[trigger] self.headers.m@.contains_key(k) && k != header::STATUS_MESSAGE@ ==> r.head.headers.m@.contains_key(k) && r.head.headers.m@[k] == self.headers.m@[k], // @OBL Status::into_response::headers_intact [C17] every header of the status travels with the reply, unchanged
+        self.message is Some ==> r.head.headers.m@.contains_key(header::STATUS_MESSAGE@) && r.head.headers.m@[header::STATUS_MESSAGE@] == self.message->Some_0@, // @OBL Status::into_response::message_travels_as_its_header [C17] the message travels as the status-message header
 ''')
     t += '}\n'
-    t += C.helpers_here()
-    t += P.FOOTER
     return t
